@@ -123,6 +123,12 @@ CONTROLS = [
         "            is_comment = false;\n            x.push(c);", 1)]),
     ('x18-identifier-start-only', 'X18', 'syn', 'ident-glued-after', [(PPF, '            if is_ident != is_ident_prev {', '            if is_ident && !is_ident_prev {', 1)]),
     ('x18-last-run-dropped', 'X18', 'syn', 'last-run-lost', [(PPF, "        is_escaped = is_string && c == '\\\\' && !is_escaped;\n    }\n    ret.push(x);\n    ret", "        is_escaped = is_string && c == '\\\\' && !is_escaped;\n    }\n    ret", 1)]),
+    ('x19-quote-rewrite-before-escaped-quote', 'X19', 'syn', 'rewrite-order', [(PPF,
+        """                            .replace("`\\\\`\\"", "\\\\\\"")  // Escaped backslash.\n                            .replace("`\\"", "\\"")       // Escaped quote.""",
+        """                            .replace("`\\"", "\\"")       // Escaped quote.\n                            .replace("`\\\\`\\"", "\\\\\\"")  // Escaped backslash.""", 1)]),
+    ('x19-paste-leaves-blank', 'X19', 'syn', 'rewrite-wrong', [(PPF, """.replace("``", "")""", """.replace("``", " ")""", 1)]),
+    ('x19-formal-appended-verbatim', 'X19', 'syn', 'formal-not-substituted', [(PPF, '                    replaced.push_str(*value);', '                    replaced.push_str(&text);', 1)]),
+    ('x19-lookup-by-macro-name', 'X19', 'syn', 'lookup-key', [(PPF, 'if let Some(value) = arg_map.get(&text) {', 'if let Some(value) = arg_map.get(&id) {', 1)]),
     ('s1-version-stack-not-reset', 'S1', 'mir', 'not-reset:CURRENT_VERSION', [(PARSER + 'lib.rs', '    clear_directive();\n    clear_version();\n}', '    clear_directive();\n}', 1)]),
     ('s2-grammar-function-exported', 'S2', 'mir', 'source_text', [(PARSER + 'source_text/system_verilog_source_text.rs', 'pub(crate) fn source_text(s: Span)', 'pub fn source_text(s: Span)', 1)]),
     ('s3-scope-leak-on-error-path', 'S3', 'mir', 'text_macro_usage:unbalanced', [(CD,
